@@ -50,6 +50,8 @@ func exec(op string) (res string) {
 		return execHeld(w[1], w[2:])
 	case "conn":
 		return execConn(w[1:])
+	case "hist":
+		return execHist(w[1:])
 	}
 	return "bad-op"
 }
@@ -284,6 +286,28 @@ func main() {
 	// OWNERSHIP of Marshal results and decoded values (held.go), and bind values through real connections (conn.go)
 	for _, op := range fixedHeldOps {
 		emit(op, "fixed/"+strings.Fields(op)[0])
+	}
+	// HISTORIES inside one process (hist.go): the same Go type for several type descriptions, in sequence
+	emitHist := func(op, class string) {
+		ans := exec(op)
+		for _, a := range strings.Split(ans, " ; ") {
+			if !strings.HasPrefix(a, "ok") && a != "null" && a != "crash" {
+				return // an error produces no bytes: not this op's business (model-vs-code op enc)
+			}
+		}
+		out.Case(op, ans, class, true)
+	}
+	for _, op := range fixedHistOps {
+		emitHist(op, "fixed/hist")
+	}
+	nhist := 400
+	if tier == "thorough" {
+		nhist = 8000
+	}
+	for i := 0; i < nhist; i++ {
+		if op, cls, ok := genHist(g); ok {
+			emitHist(op, cls)
+		}
 	}
 	nh, nc := 500, 60
 	if tier == "thorough" {
